@@ -296,7 +296,7 @@ Section Base.
     - assumption.
   Qed.
 
-  Lemma in_pre_elements : forall vs cs i x, length cs = S (length vs) -> i <= length vs ->
+  Lemma in_pre_elements : forall (vs : list elt) cs i x, length cs = S (length vs) -> i <= length vs ->
     In x (pre vs cs i) -> In x (elements (Inode vs cs)).
   Proof. intros. rewrite (@elements_split vs cs i) by assumption. apply in_or_app. auto. Qed.
 
@@ -391,8 +391,7 @@ Section Base.
   Proof.
     intros P cs i c H Hc. unfold aset. apply Forall_app. split.
     - apply Forall_forall. intros x Hx. rewrite Forall_forall in H. apply H.
-      eapply In_nth with (d := dnode) in Hx as [k [Hk <-]].
-      rewrite firstn_length in Hk. rewrite nth_firstn_lt by lia. apply nth_In. lia.
+      rewrite <- (firstn_skipn i cs). apply in_or_app. auto.
     - constructor; auto. apply Forall_forall. intros x Hx. rewrite Forall_forall in H. apply H.
       rewrite <- (firstn_skipn (S i) cs). apply in_or_app. auto.
   Qed.
@@ -408,7 +407,7 @@ Section Base.
   Lemma Inv_empty : Inv (@empty_tree elt).
   Proof.
     split; [|split]; cbn; auto.
-    exists 1. repeat split; cbn; auto; try lia. discriminate.
+    exists 1. unfold root_ok, n_vals. cbn. repeat split; try lia.
   Qed.
 
   (* ---------------------------------------------------------------- binary search *)
@@ -451,19 +450,371 @@ Section Base.
   Lemma tick_snd : forall v (r : nat * bool * list elt), snd (tick v r) = v :: snd r.
   Proof. intros v [[a b] c]. reflexivity. Qed.
 
-  (* state of the search: the answer lies in [first, first+count]; everything before first is Lt,
-     everything from first+count on is Gt *)
+  Lemma cle_Lt_r : forall a, cle a Lt -> a = Lt.
+  Proof. destruct a; cbn; tauto. Qed.
+  Lemma cle_Gt_l : forall b, cle Gt b -> b = Gt.
+  Proof. destruct b; cbn; tauto. Qed.
+  Lemma cle_Eq_l : forall b, cle Eq b -> b <> Lt.
+  Proof. destruct b; cbn; try tauto; discriminate. Qed.
+  Lemma cle_Eq_l_or_Gt : forall a b, a <> Lt -> cle a b -> b <> Lt.
+  Proof. destruct a, b; cbn; try tauto; try discriminate. Qed.
+  Lemma cle_Eq_r : forall a, cle a Eq -> a <> Gt.
+  Proof. destruct a; cbn; try tauto; discriminate. Qed.
+
+  (* probing position i: what a monotone comparator's answer says about the other positions *)
+  Lemma mono_Lt_before : forall c vs i j, mono c vs -> i < length vs -> c (nth i vs dflt) = Lt ->
+    j <= i -> c (nth j vs dflt) = Lt.
+  Proof.
+    intros c vs i j Hm Hi Hc Hj. destruct (Nat.eq_dec j i) as [->|Hne]; auto.
+    apply cle_Lt_r. rewrite <- Hc. apply mono_nth; auto. lia.
+  Qed.
+  Lemma mono_Gt_after : forall c vs i j, mono c vs -> c (nth i vs dflt) = Gt ->
+    i <= j < length vs -> c (nth j vs dflt) = Gt.
+  Proof.
+    intros c vs i j Hm Hc Hj. destruct (Nat.eq_dec j i) as [->|Hne]; auto.
+    apply cle_Gt_l. rewrite <- Hc. apply mono_nth; auto. lia.
+  Qed.
+  Lemma mono_Eq_after : forall c vs i j, mono c vs -> c (nth i vs dflt) = Eq ->
+    i <= j < length vs -> c (nth j vs dflt) <> Lt.
+  Proof.
+    intros c vs i j Hm Hc Hj. destruct (Nat.eq_dec j i) as [->|Hne]; [congruence|].
+    apply cle_Eq_l. rewrite <- Hc. apply mono_nth; auto. lia.
+  Qed.
+  Lemma mono_Eq_before : forall c vs i j, mono c vs -> i < length vs -> c (nth i vs dflt) = Eq ->
+    j <= i -> c (nth j vs dflt) <> Gt.
+  Proof.
+    intros c vs i j Hm Hi Hc Hj. destruct (Nat.eq_dec j i) as [->|Hne]; [congruence|].
+    apply cle_Eq_r. rewrite <- Hc. apply mono_nth; auto. lia.
+  Qed.
+
+  (* ---- zix_btree_find_value ---- *)
+  Definition fv_post (c : elt -> comparison) (vs : list elt) (count : nat) (r : nat * bool * list elt) : Prop :=
+    let '(i, e, lg) := r in
+    i <= length vs /\
+    (e = true -> i < length vs /\ c (nth i vs dflt) = Eq) /\
+    (e = false -> (forall j, j < i -> c (nth j vs dflt) = Lt) /\
+                   (forall j, i <= j < length vs -> c (nth j vs dflt) = Gt)) /\
+    (forall x, In x lg -> In x vs) /\
+    (count = 0 -> lg = []) /\ (1 <= count -> 2 ^ length lg <= 2 * count).
+
+  Lemma fv_post_tick : forall c vs count count' v r, In v vs ->
+    fv_post c vs count' r ->
+    (count' = 0 -> 1 <= count) -> (1 <= count' -> 2 * count' <= count) ->
+    fv_post c vs count (tick v r).
+  Proof.
+    intros c vs count count' v [[i e] lg] Hv (H1 & H2 & H3 & H4 & H5 & H6) Ha Hb. cbn.
+    repeat split; auto.
+    - apply H2; auto.
+    - apply H2; auto.
+    - apply H3; auto.
+    - apply H3; auto.
+    - intros x [<-|Hx]; auto.
+    - intros ->. lia.
+    - intros _. destruct (Nat.eq_dec count' 0) as [E|E].
+      + rewrite (H5 E). cbn. lia.
+      + specialize (H6 ltac:(lia)). cbn [length]. rewrite ?Nat.pow_succ_r'. lia.
+  Qed.
+
   Lemma fv_loop_spec : forall fuel c vs first count,
     mono c vs -> count <= fuel -> first + count <= length vs ->
     (forall j, j < first -> c (nth j vs dflt) = Lt) ->
     (forall j, first + count <= j < length vs -> c (nth j vs dflt) = Gt) ->
-    let '(i, eq, lg) := fv_loop dflt fuel c vs first count in
-    i <= length vs /\
-    (eq = true -> i < length vs /\ c (nth i vs dflt) = Eq) /\
-    (eq = false -> (forall j, j < i -> c (nth j vs dflt) = Lt) /\
-                   (forall j, i <= j < length vs -> c (nth j vs dflt) = Gt)) /\
-    (forall x, In x lg -> In x vs) /\
-    2 ^ (length lg) <= 2 * count + (if eq then 1 else 0) - (if Nat.eqb count 0 then 0 else 0) \/ length lg = 0 /\ count = 0.
+    fv_post c vs count (fv_loop dflt fuel c vs first count).
   Proof.
-  Abort.
+    induction fuel as [|f IH]; intros c vs first count Hm Hf Hb Hlo Hhi.
+    - assert (count = 0) by lia. subst. cbn.
+      repeat split; auto; try lia; try discriminate; try (intros j Hj; apply Hhi; lia); try (intros x []).
+    - cbn [fv_loop]. destruct (count =? 0) eqn:E.
+      + apply Nat.eqb_eq in E. subst. cbn.
+        repeat split; auto; try lia; try discriminate; try (intros j Hj; apply Hhi; lia); try (intros x []).
+      + apply Nat.eqb_neq in E.
+        assert (Hi : first + count / 2 < length vs) by lia.
+        assert (Hin : In (nth (first + count / 2) vs dflt) vs) by (apply nth_In; lia).
+        destruct (c (nth (first + count / 2) vs dflt)) eqn:Ec.
+        * unfold fv_post. repeat split; auto; try lia; try discriminate;
+            try (intros x [<-|[]]; assumption); try (intros _; cbn [length Nat.pow]; lia).
+        * eapply fv_post_tick with (count' := count - (count / 2 + 1)); auto; try lia.
+          apply IH; auto; try lia.
+          -- intros j Hj. apply (mono_Lt_before c vs (first + count / 2) j); auto; lia.
+          -- intros j Hj. apply Hhi. lia.
+        * eapply fv_post_tick with (count' := count / 2); auto; try lia.
+          apply IH; auto; try lia.
+          intros j Hj. apply (mono_Gt_after c vs (first + count / 2) j); auto; lia.
+  Qed.
+
+  Lemma find_value_spec : forall c vs, mono c vs ->
+    fv_post c vs (length vs) (find_value dflt c vs).
+  Proof.
+    intros c vs Hm. unfold find_value. apply fv_loop_spec; auto; try lia.
+  Qed.
+
+  (* ---- zix_btree_find_pattern ---- *)
+  Definition fp_post (c : elt -> comparison) (vs : list elt) (count : nat) (r : nat * bool * list elt) : Prop :=
+    let '(i, e, lg) := r in
+    i <= length vs /\
+    (forall j, j < i -> c (nth j vs dflt) = Lt) /\
+    (forall j, i <= j < length vs -> c (nth j vs dflt) <> Lt) /\
+    (e = true -> i < length vs /\ c (nth i vs dflt) = Eq) /\
+    (e = false -> forall j, i <= j < length vs -> c (nth j vs dflt) = Gt) /\
+    (forall x, In x lg -> In x vs) /\
+    (count = 0 -> lg = []) /\ (1 <= count -> 2 ^ length lg <= 2 * count).
+
+  Lemma fp_post_tick : forall c vs count count' v r, In v vs ->
+    fp_post c vs count' r ->
+    (count' = 0 -> 1 <= count) -> (1 <= count' -> 2 * count' <= count) ->
+    fp_post c vs count (tick v r).
+  Proof.
+    intros c vs count count' v [[i e] lg] Hv (H1 & H2 & H3 & H4 & H5 & H6 & H7 & H8) Ha Hb. cbn.
+    repeat split; auto.
+    - apply H4; auto.
+    - apply H4; auto.
+    - intros x [<-|Hx]; auto.
+    - intros ->. lia.
+    - intros _. destruct (Nat.eq_dec count' 0) as [E|E].
+      + rewrite (H7 E). cbn. lia.
+      + specialize (H8 ltac:(lia)). cbn [length]. rewrite ?Nat.pow_succ_r'. lia.
+  Qed.
+
+  Lemma fp_loop_spec : forall fuel c vs first count equal,
+    mono c vs -> count <= fuel -> first + count <= length vs ->
+    (forall j, j < first -> c (nth j vs dflt) = Lt) ->
+    (forall j, first + count <= j < length vs -> c (nth j vs dflt) <> Lt) ->
+    (equal = true -> first + count < length vs /\ c (nth (first + count) vs dflt) = Eq) ->
+    (equal = false -> forall j, first + count <= j < length vs -> c (nth j vs dflt) = Gt) ->
+    fp_post c vs count (fp_loop dflt fuel c vs first count equal).
+  Proof.
+    induction fuel as [|f IH]; intros c vs first count equal Hm Hf Hb Hlo Hhi Het Hef.
+    - assert (count = 0) by lia. subst. rewrite Nat.add_0_r in *. cbn.
+      repeat split; auto; try lia; try (apply Het; auto); try (intros x []).
+    - cbn [fp_loop]. destruct (count =? 0) eqn:E.
+      + apply Nat.eqb_eq in E. subst. rewrite Nat.add_0_r in *. cbn.
+        repeat split; auto; try lia; try (apply Het; auto); try (intros x []).
+      + apply Nat.eqb_neq in E.
+        assert (Hi : first + count / 2 < length vs) by lia.
+        assert (Hin : In (nth (first + count / 2) vs dflt) vs) by (apply nth_In; lia).
+        destruct (c (nth (first + count / 2) vs dflt)) eqn:Ec.
+        * eapply fp_post_tick with (count' := count / 2); auto; try lia.
+          apply IH; auto; try lia; try discriminate;
+            try (intros j Hj; apply (mono_Eq_after c vs (first + count / 2) j); auto; lia);
+            try (intros _; split; auto).
+        * eapply fp_post_tick with (count' := count - (count / 2 + 1)); auto; try lia.
+          replace (first + count) with (first + count / 2 + 1 + (count - (count / 2 + 1))) in * by lia.
+          apply IH; auto; try lia;
+            try (intros j Hj; apply (mono_Lt_before c vs (first + count / 2) j); auto; lia).
+        * assert (equal = false).
+          { destruct equal; auto. destruct (Het eq_refl) as [Hlt Heq].
+            exfalso. apply (mono_Eq_before c vs (first + count) (first + count / 2)) in Heq; auto. lia. }
+          subst equal.
+          eapply fp_post_tick with (count' := count / 2); auto; try lia.
+          apply IH; auto; try lia; try discriminate;
+            try (intros j Hj; rewrite (mono_Gt_after c vs (first + count / 2) j); auto; discriminate);
+            try (intros _ j Hj; apply (mono_Gt_after c vs (first + count / 2) j); auto).
+  Qed.
+
+  Lemma find_pattern_spec : forall c vs, mono c vs ->
+    fp_post c vs (length vs) (find_pattern dflt c vs).
+  Proof.
+    intros c vs Hm. unfold find_pattern. apply fp_loop_spec; auto; try lia; discriminate.
+  Qed.
+
+  (* ---------------------------------------------------------------- pairwise relations along the listing *)
+  Fixpoint pairwise (R : elt -> elt -> Prop) (l : list elt) : Prop :=
+    match l with
+    | [] => True
+    | a :: l' => (forall b, In b l' -> R a b) /\ pairwise R l'
+    end.
+
+  Definition Rasc (a b : elt) : Prop := (rank a < rank b)%Z.
+  Definition Rmono (c : elt -> comparison) (a b : elt) : Prop := cle (c a) (c b).
+
+  Lemma asc_pw : forall l, asc l <-> pairwise Rasc l.
+  Proof. induction l as [|a l IH]; cbn; [tauto|]. rewrite IH. unfold Rasc. tauto. Qed.
+  Lemma mono_pw : forall c l, mono c l <-> pairwise (Rmono c) l.
+  Proof. intros c. induction l as [|a l IH]; cbn; [tauto|]. rewrite IH. unfold Rmono. tauto. Qed.
+
+  Lemma pairwise_app : forall R l1 l2,
+    pairwise R (l1 ++ l2) <-> pairwise R l1 /\ pairwise R l2 /\ (forall a b, In a l1 -> In b l2 -> R a b).
+  Proof.
+    intros R. induction l1 as [|x l1 IH]; intros l2; cbn.
+    - intuition.
+    - rewrite IH. split.
+      + intros [H1 [H2 [H3 H4]]]. repeat split; auto.
+        * intros b Hb. apply H1. apply in_or_app. auto.
+        * intros a b [->|Ha] Hb; auto. apply H1. apply in_or_app. auto.
+      + intros [[H1 H2] [H3 H4]]. repeat split; auto.
+        intros b Hb. apply in_app_or in Hb as [Hb|Hb]; auto.
+  Qed.
+
+  Lemma in_inter_val : forall (ecs : list (list elt)) vs v, length ecs = S (length vs) ->
+    In v vs -> In v (inter ecs vs).
+  Proof.
+    induction ecs as [|c ecs IH]; intros [|u vs] v Hl Hv; cbn in *; try lia; try contradiction.
+    apply in_or_app. right. destruct Hv as [->|Hv]; [left; reflexivity|right].
+    apply IH; auto.
+  Qed.
+
+  Lemma in_inter_child : forall (ecs : list (list elt)) vs c x, length ecs = S (length vs) ->
+    In c ecs -> In x c -> In x (inter ecs vs).
+  Proof.
+    induction ecs as [|c0 ecs IH]; intros [|u vs] c x Hl Hc Hx; cbn in *; try lia; try contradiction.
+    - destruct ecs; cbn in Hl; [|lia]. destruct Hc as [->|[]]. assumption.
+    - apply in_or_app. destruct Hc as [->|Hc]; [left; assumption|right; right].
+      apply (IH vs c x); auto.
+  Qed.
+
+  Lemma pairwise_inter_vals : forall R (ecs : list (list elt)) vs, length ecs = S (length vs) ->
+    pairwise R (inter ecs vs) -> pairwise R vs.
+  Proof.
+    intros R. induction ecs as [|c ecs IH]; intros [|u vs] Hl H; cbn in *; try lia; auto.
+    apply pairwise_app in H as (_ & H & _). cbn in H. destruct H as [H1 H2]. split.
+    - intros b Hb. apply H1. apply in_inter_val; auto.
+    - apply IH; auto.
+  Qed.
+
+  Lemma in_vals_elements : forall (vs : list elt) cs v, length cs = S (length vs) -> In v vs -> In v (elements (Inode vs cs)).
+  Proof. intros. cbn [elements]. apply in_inter_val; auto. rewrite map_length. assumption. Qed.
+
+  Lemma in_child_elements : forall (vs : list elt) cs i x, length cs = S (length vs) -> i <= length vs ->
+    In x (elements (nth i cs dnode)) -> In x (elements (Inode vs cs)).
+  Proof.
+    intros. rewrite (elements_split vs cs i) by assumption. apply in_or_app. right. apply in_or_app. auto.
+  Qed.
+
+  Lemma in_post_elements : forall (vs : list elt) cs i x, length cs = S (length vs) -> i <= length vs ->
+    In x (post vs cs i) -> In x (elements (Inode vs cs)).
+  Proof.
+    intros. rewrite (elements_split vs cs i) by assumption. apply in_or_app. right. apply in_or_app. auto.
+  Qed.
+
+  Lemma pairwise_vals : forall R vs cs, length cs = S (length vs) ->
+    pairwise R (elements (Inode vs cs)) -> pairwise R vs.
+  Proof. intros R vs cs Hl H. cbn [elements] in H. apply pairwise_inter_vals in H; auto. rewrite map_length. auto. Qed.
+
+  Lemma pairwise_child : forall R vs cs i, length cs = S (length vs) -> i <= length vs ->
+    pairwise R (elements (Inode vs cs)) -> pairwise R (elements (nth i cs dnode)).
+  Proof.
+    intros R vs cs i Hl Hi H. rewrite (elements_split vs cs i) in H by assumption.
+    apply pairwise_app in H as (_ & H & _). apply pairwise_app in H as (H & _ & _). exact H.
+  Qed.
+
+  Lemma asc_vals : forall vs cs, length cs = S (length vs) -> asc (elements (Inode vs cs)) -> asc vs.
+  Proof. intros vs cs Hl H. apply asc_pw. apply asc_pw in H. eapply pairwise_vals; eauto. Qed.
+  Lemma asc_child : forall vs cs i, length cs = S (length vs) -> i <= length vs ->
+    asc (elements (Inode vs cs)) -> asc (elements (nth i cs dnode)).
+  Proof. intros vs cs i Hl Hi H. apply asc_pw. apply asc_pw in H. eapply pairwise_child; eauto. Qed.
+  Lemma mono_vals : forall c vs cs, length cs = S (length vs) -> mono c (elements (Inode vs cs)) -> mono c vs.
+  Proof. intros c vs cs Hl H. apply mono_pw. apply mono_pw in H. eapply pairwise_vals; eauto. Qed.
+  Lemma mono_child : forall c vs cs i, length cs = S (length vs) -> i <= length vs ->
+    mono c (elements (Inode vs cs)) -> mono c (elements (nth i cs dnode)).
+  Proof. intros c vs cs i Hl Hi H. apply mono_pw. apply mono_pw in H. eapply pairwise_child; eauto. Qed.
+
+  (* separation: what the answers at the neighbouring separators say about the rest of the listing *)
+  Lemma sep_pre : forall c vs cs i, length cs = S (length vs) -> i <= length vs ->
+    mono c (elements (Inode vs cs)) ->
+    (forall j, j < i -> c (nth j vs dflt) = Lt) ->
+    forall x, In x (pre vs cs i) -> c x = Lt.
+  Proof.
+    intros c vs cs i Hl Hi Hm Hlt x Hx. destruct i as [|k]; [contradiction|].
+    rewrite pre_S in Hx by lia.
+    rewrite (elements_split vs cs (S k)) in Hm by lia. apply mono_app in Hm as (Hm & _ & _).
+    rewrite pre_S in Hm by lia. rewrite app_assoc in Hm, Hx.
+    apply mono_app in Hm as (_ & _ & Hm).
+    apply in_app_or in Hx as [Hx|[<-|[]]].
+    - apply cle_Lt_r. rewrite <- (Hlt k) by lia. apply Hm; cbn; auto.
+    - apply Hlt. lia.
+  Qed.
+
+  Lemma sep_post_nlt : forall c vs cs i, length cs = S (length vs) -> i <= length vs ->
+    mono c (elements (Inode vs cs)) ->
+    (forall j, i <= j < length vs -> c (nth j vs dflt) <> Lt) ->
+    forall x, In x (post vs cs i) -> c x <> Lt.
+  Proof.
+    intros c vs cs i Hl Hi Hm Hn x Hx.
+    destruct (Nat.eq_dec i (length vs)) as [->|Hne]; [rewrite post_end in Hx by lia; contradiction|].
+    rewrite (elements_split vs cs i) in Hm by lia. apply mono_app in Hm as (_ & Hm & _).
+    apply mono_app in Hm as (_ & Hm & _).
+    rewrite post_step in Hm, Hx by lia. cbn in Hm. destruct Hm as [Hm _].
+    destruct Hx as [<-|Hx]; [apply Hn; lia|].
+    apply cle_Eq_l_or_Gt with (a := c (nth i vs dflt)); [apply Hn; lia|apply Hm; assumption].
+  Qed.
+
+  Lemma sep_post_gt : forall c vs cs i, length cs = S (length vs) -> i <= length vs ->
+    mono c (elements (Inode vs cs)) ->
+    (forall j, i <= j < length vs -> c (nth j vs dflt) = Gt) ->
+    forall x, In x (post vs cs i) -> c x = Gt.
+  Proof.
+    intros c vs cs i Hl Hi Hm Hn x Hx.
+    destruct (Nat.eq_dec i (length vs)) as [->|Hne]; [rewrite post_end in Hx by lia; contradiction|].
+    rewrite (elements_split vs cs i) in Hm by lia. apply mono_app in Hm as (_ & Hm & _).
+    apply mono_app in Hm as (_ & Hm & _).
+    rewrite post_step in Hm, Hx by lia. cbn in Hm. destruct Hm as [Hm _].
+    destruct Hx as [<-|Hx]; [apply Hn; lia|].
+    apply cle_Gt_l. rewrite <- (Hn i) by lia. apply Hm. assumption.
+  Qed.
+
+  (* the tree comparator in terms of ranks *)
+  Lemma cmpk_Lt : forall key x, cmpk rank key x = Lt <-> (rank x < rank key)%Z.
+  Proof. intros. unfold cmpk. rewrite Z.compare_lt_iff. tauto. Qed.
+  Lemma cmpk_Gt : forall key x, cmpk rank key x = Gt <-> (rank key < rank x)%Z.
+  Proof. intros. unfold cmpk. rewrite Z.compare_gt_iff. tauto. Qed.
+  Lemma cmpk_Eq : forall key x, cmpk rank key x = Eq <-> rank x = rank key.
+  Proof. intros. unfold cmpk. rewrite Z.compare_eq_iff. tauto. Qed.
+
+  (* ---------------------------------------------------------------- iterator paths and positions *)
+  (* p is a well-formed iterator path into n: inner frames are child indexes, the last a value index *)
+  Fixpoint valid (n : node) (p : list nat) : Prop :=
+    match p with
+    | [] => False
+    | [i] => i < n_vals n
+    | i :: q => is_leaf n = false /\ i <= n_vals n /\ valid (child n i) q
+    end.
+
+  (* position in [elements n] of the element the path designates *)
+  Fixpoint pos (n : node) (p : list nat) : nat :=
+    match p with
+    | [] => 0
+    | [i] =>
+      match n with
+      | BTreeModel.Leaf _ => i
+      | BTreeModel.Inode vs cs => length (pre vs cs i) + length (elements (nth i cs dnode))
+      end
+    | i :: q =>
+      match n with
+      | BTreeModel.Leaf _ => i
+      | BTreeModel.Inode vs cs => length (pre vs cs i) + pos (nth i cs dnode) q
+      end
+    end.
+
+  (* the position an iterator stands at: Some k = k-th element of the listing, None = end *)
+  Definition iter_pos (r : node) (it : iter) : option nat :=
+    match it with IEnd => None | IAt p => Some (pos r p) end.
+  Definition iter_valid (r : node) (it : iter) : Prop :=
+    match it with IEnd => True | IAt p => valid r p end.
+
+  (* collect the elements visited from [it] on (fuel bounds the number of steps) *)
+  Fixpoint walk (fuel : nat) (r : node) (it : iter) : list elt :=
+    match fuel with
+    | O => []
+    | S f =>
+      match it with
+      | IEnd => []
+      | IAt _ => iter_get dflt r it :: walk f r (snd (iter_increment r it))
+      end
+    end.
+
+  Definition shape_ok (r : node) : Prop := exists h, root_ok h r.
+
+  Lemma Inv_shape : forall t, Inv t -> shape_ok (root t).
+  Proof. intros t [H _]. exact H. Qed.
+
+  (* induction principle for the nested type *)
+  Lemma node_ind' : forall P : node -> Prop,
+    (forall vs, P (Leaf vs)) ->
+    (forall vs cs, Forall P cs -> P (Inode vs cs)) ->
+    forall n, P n.
+  Proof.
+    intros P HL HI0. fix IH 1. intros [vs|vs cs].
+    - apply HL.
+    - apply HI0. induction cs as [|c cs IHcs]; constructor; [apply IH|apply IHcs].
+  Qed.
 End Base.
